@@ -16,8 +16,8 @@ Inductive op :=
 | OTyped (e : ident) (pl : option nat) (orc : list ans) (budget : option nat)
 | OHandle (e : ident) (pl : option nat) (orc : list ans) (budget : option nat)
 | OSet (x : ident) (v : nat)                   (* dynamic set_x_data(v) *)
-| OMut (x : ident) (v : nat)                   (* write through the Option-returning _mut accessor *)
-| OTMut (x : ident) (v : nat)                  (* write through the infallible x_data_mut() *)
+| OMut (x : ident) (v : nat)                   (* `+= v` through the Option-returning _mut accessor *)
+| OTMut (x : ident) (v : nat)                  (* `+= v` through the infallible x_data_mut() *)
 | OInto (s : ident)                            (* dynamic into_<s>() *)
 | OIntoDyn
 | ODrop.
@@ -138,8 +138,8 @@ Definition step_core (h : holder) (o : op) : ores * list call * nat * holder :=
   | OMut x v, HT m =>
       match spec_field x with
       | Some f => match slot_get f (tm_slots m) with
-                  | Some _ => (ORwrote true, [], 0,
-                               HT (Build_tmachine (tm_state m) (tm_ctx m) (slot_set f (Some v) (tm_slots m))))
+                  | Some old => (ORwrote true, [], 0,
+                                 HT (Build_tmachine (tm_state m) (tm_ctx m) (slot_set f (Some (old + v)) (tm_slots m))))
                   | None => (ORwrote false, [], 0, h)
                   end
       | None => (ORnomethod, [], 0, h)
@@ -148,8 +148,8 @@ Definition step_core (h : holder) (o : op) : ores * list call * nat * holder :=
       if String.eqb (tm_state m) x then
         match spec_field x with
         | Some f => match slot_get f (tm_slots m) with
-                    | Some _ => (ORok, [], 0,
-                                 HT (Build_tmachine (tm_state m) (tm_ctx m) (slot_set f (Some v) (tm_slots m))))
+                    | Some old => (ORok, [], 0,
+                                   HT (Build_tmachine (tm_state m) (tm_ctx m) (slot_set f (Some (old + v)) (tm_slots m))))
                     | None => (ORpanicMsg, [], 0, h)        (* unwrap() on None *)
                     end
         | None => (ORnomethod, [], 0, h)
